@@ -1,11 +1,15 @@
 /-
   C16 — source tie.  `TaurexModel/Gen/SrcC16.lean` is regenerated on every run by the `dyn` dialect of the source translator
   (`harness/translate_dyn.py`) from the source text of taurex/util/util.py (the recursive writer), taurex/output/hdf5.py
-  (the HDF5 group methods), taurex/binning/{binner,fluxbinner,simplebinner,nativebinner}.py (the spectrum dictionaries) and
-  taurex/util/hdf5.py (the loader).  The regenerated definitions are dynamically typed Python (values `Dyn.Val`, exceptions
+  (the HDF5 group methods), taurex/binning/{binner,fluxbinner,simplebinner,nativebinner}.py (the spectrum dictionaries),
+  taurex/util/hdf5.py (the loaders: `load_generic_profile_from_hdf5`, the per-component loaders, `load_chemistry_from_hdf5`,
+  `load_model_from_hdf5`, `taurex_hdf5_to_model`, `taurex_hdf5_to_observation`) and the component `write` methods of
+  taurex/data/profiles/temperature/{tprofile,isothermal,guillot,npoint}.py, taurex/model/{model,simplemodel,transmission}.py,
+  taurex/data/profiles/chemistry/{chemistry,taurexchemistry}.py.  The regenerated definitions are dynamically typed Python (values `Dyn.Val`, exceptions
   `Dyn.Exc`, primitives of `TaurexModel/Gen/DynPrelude.lean`), polymorphic in the monad and in one oracle `ext` for what the
   code asks of numpy, h5py and the other objects.  The theorems below instantiate the oracle with the model's description
-  of those objects (`Proofs/C16SrcSpectrum.lean`, `Proofs/C16SrcStore.lean`, `Proofs/C16SrcLoad.lean`, `Proofs/C16SrcHdf5.lean`; for every behaviour
+  of those objects (`Proofs/C16SrcSpectrum.lean`, `Proofs/C16SrcStore.lean`, `Proofs/C16SrcLoad.lean`, `Proofs/C16SrcHdf5.lean`,
+  `Proofs/C16SrcWrite.lean`; for every behaviour
   the model leaves open)
   and state that each regenerated function computes the hand-written function of `TaurexModel/Output.lean` that the C16
   theorems are about and `driver_c16` executes.  A source change that alters one of these functions makes the
@@ -15,6 +19,7 @@ import Proofs.C16SrcSpectrum
 import Proofs.C16SrcStore
 import Proofs.C16SrcLoad
 import Proofs.C16SrcHdf5
+import Proofs.C16SrcWrite
 set_option linter.unusedSectionVars false
 set_option linter.unusedVariables false
 set_option linter.unusedSimpArgs false
@@ -23,7 +28,7 @@ namespace Taurex.C16Src
 open Taurex.Gen Taurex.Gen.Dyn
 open Taurex.Output (Entry wlOfWn wnwidthToWlwidth computeBinEdges baseOutput spectrumOutput BinnerKind Value Node Arr
   ArrData Err OfInt toNdList stack stringList stringNode storeThing storeSeq storeEntries subKey isStr load loadKwargs
-  scalarOf cellWidth utf8Size sCell writeArray)
+  scalarOf cellWidth utf8Size sCell writeArray writeComponent)
 
 /-! ## spectrum dictionaries -/
 
@@ -327,6 +332,248 @@ theorem src_write_string_array (w : HWorld α) (hw : HWorldOK w) (p : List Strin
 
 end hdf5
 
+/-! ## the component `write` methods -/
+
+section write
+variable {α : Type} [OfInt α] [FloatLike α]
+
+/-- **`TemperatureProfile.write(output)`** creates the group `Temperature` and stores the class name under
+    `temperature_type` -/
+theorem src_tprofile_write (w : WWorld α) (hw : WWorldOK w) (c : List Nat) (attr : String → Option (Value α))
+    (part : String → Option (SubComp α)) (q : List String) (s : Log α) :
+    SrcC16.tprofile_write w.ext (.obj (.comp c attr part)) (.obj (.group q)) s
+      = (.ok (.obj (.group (q ++ ["Temperature"]))),
+         s ++ [(q, "Temperature", .group []), (q ++ ["Temperature"], "temperature_type", .vstr c)]) := by
+  unfold SrcC16.tprofile_write
+  simp only [eff_bind, Dyn.callMethod, w_create_group, Dyn.getAttr, w_class, w_name, w_write_string, hw c, eff_pure,
+    List.append_assoc, List.cons_append, List.nil_append]
+
+/-- **`Isothermal.write(output)`** stores exactly what the model's writer stores for
+    `Output.writeComponent "temperature_type" <class> [("T", T)]` under `Temperature` (`T = self._iso_temp`) -/
+theorem src_isothermal_write (w : WWorld α) (hw : WWorldOK w) (c : List Nat) (attr : String → Option (Value α))
+    (part : String → Option (SubComp α)) (T : α) (hT : attr "_iso_temp" = some (.float T)) (q : List String) (s : Log α)
+    (es : List (String × Node α))
+    (hm : storeThing "Temperature" (writeComponent "temperature_type" c [("T", .float T)]) = .ok es) :
+    SrcC16.isothermal_write w.ext (.obj (.comp c attr part)) (.obj (.group q)) s
+      = (.ok (.obj (.group (q ++ ["Temperature"]))), s ++ flat q es) := by
+  have he : es = [("Temperature", .group [("temperature_type", .vstr c), ("T", .num ⟨[], .floats [T]⟩)])] := by
+    simp [writeComponent, storeThing, storeEntries] at hm
+    exact hm.symm
+  subst he
+  unfold SrcC16.isothermal_write
+  simp only [eff_bind, src_tprofile_write w hw, Dyn.getAttr, w_attr w c attr part "_iso_temp" _ (by decide) hT, embW,
+    Dyn.callMethod, w_write_float, eff_pure, flat, flatNode, List.append_assoc, List.cons_append, List.nil_append,
+    List.append_nil]
+
+/-- **`Guillot2010.write(output)`**: the class name and the six parameters `T_irr, kappa_irr, kappa_v1, kappa_v2, alpha,
+    T_int` (the attributes `T_irr, kappa_ir, kappa_v1, kappa_v2, alpha, T_int`) — what the model's writer stores for that
+    `Output.writeComponent` -/
+theorem src_guillot_write (w : WWorld α) (hw : WWorldOK w) (c : List Nat) (attr : String → Option (Value α))
+    (part : String → Option (SubComp α)) (Tirr kir kv1 kv2 al Tint : α)
+    (h1 : attr "T_irr" = some (.float Tirr)) (h2 : attr "kappa_ir" = some (.float kir))
+    (h3 : attr "kappa_v1" = some (.float kv1)) (h4 : attr "kappa_v2" = some (.float kv2))
+    (h5 : attr "alpha" = some (.float al)) (h6 : attr "T_int" = some (.float Tint))
+    (q : List String) (s : Log α) (es : List (String × Node α))
+    (hm : storeThing "Temperature" (writeComponent "temperature_type" c
+      [("T_irr", .float Tirr), ("kappa_irr", .float kir), ("kappa_v1", .float kv1), ("kappa_v2", .float kv2),
+       ("alpha", .float al), ("T_int", .float Tint)]) = .ok es) :
+    SrcC16.guillot_write w.ext (.obj (.comp c attr part)) (.obj (.group q)) s
+      = (.ok (.obj (.group (q ++ ["Temperature"]))), s ++ flat q es) := by
+  have he : es = [("Temperature", .group [("temperature_type", .vstr c), ("T_irr", .num ⟨[], .floats [Tirr]⟩),
+      ("kappa_irr", .num ⟨[], .floats [kir]⟩), ("kappa_v1", .num ⟨[], .floats [kv1]⟩),
+      ("kappa_v2", .num ⟨[], .floats [kv2]⟩), ("alpha", .num ⟨[], .floats [al]⟩),
+      ("T_int", .num ⟨[], .floats [Tint]⟩)])] := by
+    simp [writeComponent, storeThing, storeEntries] at hm
+    exact hm.symm
+  subst he
+  unfold SrcC16.guillot_write
+  simp only [eff_bind, src_tprofile_write w hw, Dyn.getAttr,
+    w_attr w c attr part "T_irr" _ (by decide) h1, w_attr w c attr part "kappa_ir" _ (by decide) h2,
+    w_attr w c attr part "kappa_v1" _ (by decide) h3, w_attr w c attr part "kappa_v2" _ (by decide) h4,
+    w_attr w c attr part "alpha" _ (by decide) h5, w_attr w c attr part "T_int" _ (by decide) h6, embW,
+    Dyn.callMethod, w_write_float, eff_pure, flat, flatNode, List.append_assoc, List.cons_append, List.nil_append,
+    List.append_nil]
+
+/-- **`NPoint.write(output)`**: surface / top temperature, the temperature points as an array (`np.array` of the list),
+    surface / top pressure (`-1` when the attribute is `None` or zero: `orMinus1`), the pressure points as an array, the
+    smoothing window and the slope limit — what the model's writer stores for that `Output.writeComponent` -/
+theorem src_npoint_write (w : WWorld α) (hw : WWorldOK w) (c : List Nat) (attr : String → Option (Value α))
+    (part : String → Option (SubComp α)) (Ts Tt ls : α) (tp pp : List α) (ps pt : Value α) (sw : Int)
+    (hps : ps = .unsupported ∨ ∃ x, ps = .float x) (hpt : pt = .unsupported ∨ ∃ x, pt = .float x)
+    (h1 : attr "_T_surface" = some (.float Ts)) (h2 : attr "_T_top" = some (.float Tt))
+    (h3 : attr "_t_points" = some (.list (tp.map .float))) (h4 : attr "_P_surface" = some ps)
+    (h5 : attr "_P_top" = some pt) (h6 : attr "_p_points" = some (.list (pp.map .float)))
+    (h7 : attr "_smooth_window" = some (.int sw)) (h8 : attr "_limit_slope" = some (.float ls))
+    (q : List String) (s : Log α) (es : List (String × Node α))
+    (hm : storeThing "Temperature" (writeComponent "temperature_type" c
+      [("T_surface", .float Ts), ("T_top", .float Tt), ("temperature_points", .array (arrOf tp)),
+       ("P_surface", orMinus1 ps), ("P_top", orMinus1 pt), ("pressure_points", .array (arrOf pp)),
+       ("smoothing_window", .int sw), ("limit_slope", .float ls)]) = .ok es) :
+    SrcC16.npoint_write w.ext (.obj (.comp c attr part)) (.obj (.group q)) s
+      = (.ok (.obj (.group (q ++ ["Temperature"]))), s ++ flat q es) := by
+  have hnp : ∀ s : Log α, w.ext.global "np" s = (.ok (.obj .np), s) := fun _ => rfl
+  unfold SrcC16.npoint_write
+  simp only [eff_bind, src_tprofile_write w hw, Dyn.getAttr,
+    w_attr w c attr part "_T_surface" _ (by decide) h1, w_attr w c attr part "_T_top" _ (by decide) h2,
+    w_attr w c attr part "_t_points" _ (by decide) h3, w_attr w c attr part "_P_surface" _ (by decide) h4,
+    w_attr w c attr part "_P_top" _ (by decide) h5, w_attr w c attr part "_p_points" _ (by decide) h6,
+    w_attr w c attr part "_smooth_window" _ (by decide) h7, w_attr w c attr part "_limit_slope" _ (by decide) h8,
+    hnp, Dyn.callMethod, embW, np_array_floats w hw, w_write_float, w_write_array, w_write_int, eff_pure]
+  rcases hps with rfl | ⟨x, rfl⟩ <;> rcases hpt with rfl | ⟨y, rfl⟩
+  all_goals (
+    simp only [orMinus1] at hm
+    simp only [embW, Dyn.truthy, eff_pure, eff_bind, Bool.not_false, Bool.not_not, if_true])
+  all_goals (try (by_cases hx : FloatLike.isZero x = true <;>
+    simp only [hx, if_true, if_false, Bool.false_eq_true, Bool.not_true, Bool.not_false] at hm ⊢))
+  all_goals (try (by_cases hy : FloatLike.isZero y = true <;>
+    simp only [hy, if_true, if_false, Bool.false_eq_true, Bool.not_true, Bool.not_false] at hm ⊢))
+  all_goals (
+    simp [writeComponent, storeThing, storeEntries] at hm
+    subst hm
+    simp only [eff_bind, eff_pure, w_write_float, w_write_int, flat, flatNode, List.append_assoc, List.cons_append,
+      List.nil_append, List.append_nil])
+
+/-- `ForwardModel.write(output)`, as the log it leaves -/
+theorem forwardmodel_write_log (w : WWorld α) (hw : WWorldOK w) (c : List Nat) (attr : String → Option (Value α))
+    (part : String → Option (SubComp α)) (cs : List (String × Value α)) (ha : attr "contribution_list" = none)
+    (hp : part "contribution_list" = some (.many cs)) (ces : List (String × Node α)) (hcs : storeEntries cs = .ok ces)
+    (q : List String) (s : Log α) :
+    SrcC16.forwardmodel_write w.ext (.obj (.comp c attr part)) (.obj (.group q)) s
+      = (.ok (.obj (.group (q ++ ["ModelParameters"]))),
+         s ++ flat q [("ModelParameters", .group [("model_type", .vstr c), ("Contributions", .group ces)])]) := by
+  unfold SrcC16.forwardmodel_write
+  simp only [eff_bind, Dyn.callMethod, w_create_group, Dyn.getAttr, w_class, w_name, w_write_string, hw c, eff_pure,
+    w_part_many w c attr part "contribution_list" cs (by decide) ha hp, Dyn.iter]
+  rw [forM_subs w (q ++ ["ModelParameters"] ++ ["Contributions"]) _ (fun k v s => by simp [eff_bind, Dyn.callMethod]) cs _ ces hcs]
+  simp only [flat, flatNode, List.append_assoc, List.cons_append, List.nil_append, List.append_nil]
+
+/-- **`ForwardModel.write(output)`** creates the group `ModelParameters` with the class name under `model_type` and the
+    group `Contributions` holding what every contribution's own `write` stores, in list order -/
+theorem src_forwardmodel_write (w : WWorld α) (hw : WWorldOK w) (c : List Nat) (attr : String → Option (Value α))
+    (part : String → Option (SubComp α)) (cs : List (String × Value α)) (ha : attr "contribution_list" = none)
+    (hp : part "contribution_list" = some (.many cs)) (q : List String) (s : Log α) (es : List (String × Node α))
+    (hm : storeThing "ModelParameters" (writeComponent "model_type" c [("Contributions", .dict cs)]) = .ok es) :
+    SrcC16.forwardmodel_write w.ext (.obj (.comp c attr part)) (.obj (.group q)) s
+      = (.ok (.obj (.group (q ++ ["ModelParameters"]))), s ++ flat q es) := by
+  obtain ⟨ch, hch, rfl⟩ := storeThing_dict_ok hm
+  obtain ⟨a, b, ha1, hb1, rfl⟩ := storeEntries_cons_ok hch
+  obtain ⟨a2, b2, ha2, hb2, rfl⟩ := storeEntries_cons_ok hb1
+  obtain ⟨ces, hces, rfl⟩ := storeThing_dict_ok ha2
+  simp only [storeThing, Except.ok.injEq] at ha1
+  simp only [storeEntries, Except.ok.injEq] at hb2
+  subst ha1 hb2
+  exact forwardmodel_write_log w hw c attr part cs ha hp ces hces q s
+
+/-- `SimpleForwardModel.write(output)`, as the log it leaves -/
+theorem simplemodel_write_log (w : WWorld α) (hw : WWorldOK w) (c : List Nat) (attr : String → Option (Value α))
+    (part : String → Option (SubComp α)) (cs : List (String × Value α)) (ha : attr "contribution_list" = none)
+    (hp : part "contribution_list" = some (.many cs)) (chem temp press planet star : String × Value α)
+    (hh : Held attr part chem temp press planet star) (ces : List (String × Node α)) (hcs : storeEntries cs = .ok ces)
+    (subs : List (String × Node α)) (hsubs : storeEntries [chem, temp, press, planet, star] = .ok subs)
+    (q : List String) (s : Log α) :
+    SrcC16.simplemodel_write w.ext (.obj (.comp c attr part)) (.obj (.group q)) s
+      = (.ok (.obj (.group (q ++ ["ModelParameters"]))),
+         s ++ flat q [("ModelParameters", .group ([("model_type", .vstr c), ("Contributions", .group ces)] ++ subs))]) := by
+  obtain ⟨e1, r1, h1, hr1, rfl⟩ := storeEntries_cons_ok hsubs
+  obtain ⟨e2, r2, h2, hr2, rfl⟩ := storeEntries_cons_ok hr1
+  obtain ⟨e3, r3, h3, hr3, rfl⟩ := storeEntries_cons_ok hr2
+  obtain ⟨e4, r4, h4, hr4, rfl⟩ := storeEntries_cons_ok hr3
+  obtain ⟨e5, r5, h5, hr5, rfl⟩ := storeEntries_cons_ok hr4
+  simp only [storeEntries, Except.ok.injEq] at hr5
+  subst hr5
+  have hmodel : ∀ s : Log α, w.ext.method (.comp c attr part) "model" [] [] s = (.ok .none, s) := fun _ => rfl
+  unfold SrcC16.simplemodel_write
+  simp only [eff_bind, Dyn.callMethod, hmodel, forwardmodel_write_log w hw c attr part cs ha hp ces hcs, Dyn.getAttr,
+    w_part_one w c attr part "_chemistry" _ _ (by decide) hh.a1 hh.p1,
+    w_part_one w c attr part "_temperature_profile" _ _ (by decide) hh.a2 hh.p2,
+    w_part_one w c attr part "pressure" _ _ (by decide) hh.a3 hh.p3,
+    w_part_one w c attr part "_planet" _ _ (by decide) hh.a4 hh.p4,
+    w_part_one w c attr part "_star" _ _ (by decide) hh.a5 hh.p5,
+    w_sub_write w _ _ _ _ h1, w_sub_write w _ _ _ _ h2, w_sub_write w _ _ _ _ h3, w_sub_write w _ _ _ _ h4,
+    w_sub_write w _ _ _ _ h5, eff_pure]
+  simp only [flat, flatNode, flat_append, List.append_assoc, List.cons_append, List.nil_append, List.append_nil]
+
+/-- **`SimpleForwardModel.write(output)`**: runs the model, then `ForwardModel.write`, then the `write` of the chemistry,
+    the temperature profile, the pressure profile, the planet and the star into the group `ModelParameters` -/
+theorem src_simplemodel_write (w : WWorld α) (hw : WWorldOK w) (c : List Nat) (attr : String → Option (Value α))
+    (part : String → Option (SubComp α)) (cs : List (String × Value α)) (ha : attr "contribution_list" = none)
+    (hp : part "contribution_list" = some (.many cs)) (chem temp press planet star : String × Value α)
+    (hh : Held attr part chem temp press planet star) (q : List String) (s : Log α) (es : List (String × Node α))
+    (hm : storeThing "ModelParameters" (modelValue c cs chem temp press planet star []) = .ok es) :
+    SrcC16.simplemodel_write w.ext (.obj (.comp c attr part)) (.obj (.group q)) s
+      = (.ok (.obj (.group (q ++ ["ModelParameters"]))), s ++ flat q es) := by
+  obtain ⟨ces, subs, ex, hces, hsubs, hex, rfl⟩ := modelValue_ok hm
+  simp only [storeEntries, Except.ok.injEq] at hex
+  subst hex
+  rw [simplemodel_write_log w hw c attr part cs ha hp chem temp press planet star hh ces hces subs hsubs q s]
+  simp
+
+/-- **`TransmissionModel.write(output)`**: `SimpleForwardModel.write` plus the flag `new_path_method` -/
+theorem src_transmission_write (w : WWorld α) (hw : WWorldOK w) (c : List Nat) (attr : String → Option (Value α))
+    (part : String → Option (SubComp α)) (cs : List (String × Value α)) (ha : attr "contribution_list" = none)
+    (hp : part "contribution_list" = some (.many cs)) (chem temp press planet star : String × Value α)
+    (hh : Held attr part chem temp press planet star) (b : Bool) (hb : attr "new_method" = some (.bool b))
+    (q : List String) (s : Log α) (es : List (String × Node α))
+    (hm : storeThing "ModelParameters"
+      (modelValue c cs chem temp press planet star [("new_path_method", .bool b)]) = .ok es) :
+    SrcC16.transmission_write w.ext (.obj (.comp c attr part)) (.obj (.group q)) s
+      = (.ok (.obj (.group (q ++ ["ModelParameters"]))), s ++ flat q es) := by
+  obtain ⟨ces, subs, ex, hces, hsubs, hex, rfl⟩ := modelValue_ok hm
+  simp [storeEntries, storeThing] at hex
+  subst hex
+  unfold SrcC16.transmission_write
+  simp only [eff_bind, simplemodel_write_log w hw c attr part cs ha hp chem temp press planet star hh ces hces subs hsubs,
+    Dyn.getAttr, w_attr w c attr part "new_method" _ (by decide) hb, embW, Dyn.callMethod, w_write_bool, eff_pure]
+  simp only [flat, flatNode, flat_append, List.append_assoc, List.cons_append, List.nil_append, List.append_nil]
+
+/-- **`Chemistry.write(output)`** creates the group `Chemistry`: the class name under `chemistry_type`, the active and the
+    inactive gas names as fixed-width string arrays (`Output.stringNode`), and the condensates if there are any -/
+theorem src_chemistry_write (w : WWorld α) (hw : WWorldOK w) (c : List Nat) (attr : String → Option (Value α))
+    (part : String → Option (SubComp α)) (act inact : List (List Nat)) (cond : Option (List (List Nat)))
+    (hc : ChemAttrs attr act inact cond) (q : List String) (s : Log α) :
+    SrcC16.chemistry_write w.ext (.obj (.comp c attr part)) (.obj (.group q)) s
+      = (.ok (.obj (.group (q ++ ["Chemistry"]))), s ++ flat q [("Chemistry", .group (chemEntries c act inact cond))]) := by
+  unfold SrcC16.chemistry_write
+  simp only [eff_bind, Dyn.callMethod, w_create_group, Dyn.getAttr, w_class, w_name, w_write_string, hw c, eff_pure,
+    w_attr w c attr part "activeGases" _ (by decide) hc.act, w_attr w c attr part "inactiveGases" _ (by decide) hc.inact,
+    w_attr w c attr part "hasCondensates" _ (by decide) hc.has, embW, w_write_string_array w hw]
+  cases cond with
+  | none =>
+    simp only [embW, Dyn.truthy, Option.isSome_none, eff_pure, Bool.false_eq_true, if_false, chemEntries, flat, flatNode,
+      stringNode, List.append_assoc, List.cons_append, List.nil_append, List.append_nil]
+  | some cd =>
+    simp only [embW, Dyn.truthy, Option.isSome_some, eff_pure, if_true, eff_bind,
+      w_attr w c attr part "condensates" _ (by decide) (hc.cond cd rfl), w_write_string_array w hw, chemEntries, flat,
+      flatNode, stringNode, List.append_assoc, List.cons_append, List.nil_append, List.append_nil]
+
+/-- **`TaurexChemistry.write(output)`**: `Chemistry.write`, then the fill ratios as an array (`np.array(self._fill_ratio)`;
+    `self._fill_gases` is the list of names the constructor leaves), the fill gas names, and what every gas profile's own
+    `write` stores -/
+theorem src_taurexchemistry_write (w : WWorld α) (hw : WWorldOK w) (c : List Nat) (attr : String → Option (Value α))
+    (part : String → Option (SubComp α)) (act inact : List (List Nat)) (cond : Option (List (List Nat)))
+    (hc : ChemAttrs attr act inact cond) (fg : List (List Nat)) (fr : List α) (gs : List (String × Value α))
+    (hfg : attr "_fill_gases" = some (.list (fg.map .str))) (hfr : attr "_fill_ratio" = some (.list (fr.map .float)))
+    (hga : attr "_gases" = none) (hgs : part "_gases" = some (.many gs)) (ges : List (String × Node α))
+    (hges : storeEntries gs = .ok ges) (q : List String) (s : Log α) :
+    SrcC16.taurexchemistry_write w.ext (.obj (.comp c attr part)) (.obj (.group q)) s
+      = (.ok (.obj (.group (q ++ ["Chemistry"]))),
+         s ++ flat q [("Chemistry", .group (chemEntries c act inact cond ++
+            [("ratio", .num (arrOf fr)), ("fill_gases", stringNode fg)] ++ ges))]) := by
+  have hnp : ∀ s : Log α, w.ext.global "np" s = (.ok (.obj .np), s) := fun _ => rfl
+  have hhas : ∀ s : Log α, w.ext.op "hasattr" [.list (embWL w.enc (fg.map .str)), .str "__len__"] s
+      = (.ok (.bool true), s) := fun _ => rfl
+  have hty : Dyn.Val.isTy .float (.list (embWL w.enc (fg.map .str)) : WV α) = false := rfl
+  unfold SrcC16.taurexchemistry_write
+  simp only [eff_bind, src_chemistry_write w hw c attr part act inact cond hc, Dyn.getAttr,
+    w_attr w c attr part "_fill_gases" _ (by decide) hfg, w_attr w c attr part "_fill_ratio" _ (by decide) hfr,
+    embW, hty, Bool.false_eq_true, if_false, hhas, Dyn.truthy, eff_pure, if_true, hnp, Dyn.callMethod, np_array_floats w hw,
+    w_write_array, w_write_string_array w hw, w_part_many w c attr part "_gases" gs (by decide) hga hgs, Dyn.iter]
+  rw [forM_subs w (q ++ ["Chemistry"]) _ (fun k v s => by simp [eff_bind, Dyn.callMethod]) gs _ ges hges]
+  simp only [flat, flatNode, flat_append, stringNode, List.append_assoc, List.cons_append, List.nil_append, List.append_nil]
+
+
+end write
+
 /-! ## the loader -/
 
 section loader
@@ -335,19 +582,19 @@ variable {α : Type} [FloatLike α]
 /-- **`decode_string_array(f)`** on an array of fixed-width byte strings: the list of its decoded cells —
     `Output.load (.sfix w rows)` -/
 theorem src_decode_string_array (w : LWorld α) (wd : Nat) (rows : List (List Nat)) :
-    SrcC16.decode_string_array w.ext (.obj (.sarr rows)) = .ok (embLV w.enc (load (.sfix wd rows))) := by
+    SrcC16.decode_string_array w.ext (.obj (.sarr rows)) = pure (embLV w.enc (load (.sfix wd rows))) := by
   unfold SrcC16.decode_string_array
-  simp only [Dyn.iter, LWorld.ext, l_bind_ok, l_pure_ok, load, embLV, List.map_map]
-  have : ∀ rs : List (List Nat), Dyn.mapM (m := LM) (fun s => do
+  simp only [Dyn.iter, LWorld.ext, l_bind_ok, load, embLV, List.map_map]
+  have : ∀ rs : List (List Nat), Dyn.mapM (m := LM α) (fun s => do
         let t__3 ← Dyn.getItem w.ext s (Dyn.Val.int 0)
         let t__4 ← Dyn.callMethodB w.ext t__3 "decode" [(Dyn.Val.str "utf-8")] []
         pure t__4) (rs.map (fun r => (Dyn.Val.obj (LObj.srow r) : LV α)))
-      = .ok (rs.map (fun r => Dyn.Val.str (w.enc r))) := by
+      = pure (rs.map (fun r => Dyn.Val.str (w.enc r))) := by
     intro rs
     induction rs with
     | nil => rfl
     | cons r t ih =>
-      simp only [List.map_cons, Dyn.mapM, ih, l_bind_ok, l_pure_ok]
+      simp only [List.map_cons, Dyn.mapM, ih, l_bind_ok]
       rfl
   simp only [LWorld.ext] at this
   rw [this]
@@ -355,7 +602,7 @@ theorem src_decode_string_array (w : LWorld α) (wd : Nat) (rows : List (List Na
 
 /-- **`get_klass_args(klass)`**: the names of the constructor parameters that have a default -/
 theorem src_get_klass_args (w : LWorld α) (nm : List Nat) (kws : List String) :
-    SrcC16.get_klass_args w.ext (.obj (.klass nm kws)) = .ok (.list (kws.map .str)) := by
+    SrcC16.get_klass_args w.ext (.obj (.klass nm kws)) = pure (.list (kws.map .str)) := by
   unfold SrcC16.get_klass_args
   by_cases he : kws = []
   · subst he; rfl
@@ -364,124 +611,452 @@ theorem src_get_klass_args (w : LWorld α) (nm : List Nat) (kws : List String) :
       Dyn.len, Dyn.neg, Dyn.sliceBound]
     have hnames : (kws.map (fun s => (Dyn.Val.str s : LV α))) ≠ [] := by simpa using he
     have := slice_tail' (w.argsPre kws) (kws.map (fun s => (Dyn.Val.str s : LV α))) hnames
-    simpa using this
+    exact congrArg (fun l => (pure (Dyn.Val.list l) : LM α (LV α))) (by simpa using this)
+
+
+/-- **`load_generic_profile_from_hdf5(loc, module, identifier, profile_type, premade_dict)`** (no replacement dictionary)
+    is the model's reload: the class is the one `class_for_name` finds for the type string (the stored one, or the
+    `profile_type` the caller passes: `TypeFrom`), and it is called with the pre-made keyword arguments (`Premade`: none, or
+    the caller's dictionary `pre`) followed by exactly `Output.loadKwargs` — for every constructor keyword, in the
+    constructor's order, that is stored in the group: the stored entry read back and decoded as `Output.load` says
+    (`decode_string_array` for fixed-width string arrays, `.decode()` for strings); keywords that are not stored are left
+    to their defaults.  `hpk`: no stored constructor keyword is also pre-made (it would be overwritten in place). -/
+theorem src_load_generic_profile_gen (w : LWorld α) (ch : List (String × Node α)) (identifier pt premade : LV α)
+    (nm : List Nat) (kws : List String) (module : LV α) (pre : List (String × LV α))
+    (hpt : TypeFrom w ch identifier pt nm) (hpm : Premade premade pre) (hk : w.klassOf nm = some kws)
+    (hn : kws.Nodup) (hds : ∀ kw ∈ kws, ∀ n, ch.lookup kw = some n → isGroup n = false)
+    (hpk : ∀ kw ∈ kws, (ch.lookup kw).isSome = true → kw ∉ pre.map (·.1)) :
+    SrcC16.load_generic_profile w.ext (.obj (.h5 ch)) module identifier pt premade .none
+      = w.call (.klass nm kws) [] (pre ++ embKwL w.enc (loadKwargs ch kws)) := by
+  unfold SrcC16.load_generic_profile
+  have hget : ∀ k : String, Dyn.getItem w.ext (Dyn.Val.obj (LObj.h5 ch)) (Dyn.Val.str k)
+      = match ch.lookup k with | some n => pure (.obj (nodeObj n)) | none => throw .KeyError := by
+    intro k; simp only [Dyn.getItem, LWorld.ext]; rfl
+  have hraw : ∀ n : Node α, Dyn.getItem w.ext (Dyn.Val.obj (LObj.node n)) (Dyn.Val.tuple []) = pure (rawOf w.enc n) := by
+    intro n; rfl
+  have hcfn : w.ext.global "class_for_name" = pure (.obj (.fn "class_for_name")) := rfl
+  have hcall : Dyn.call w.ext (Dyn.Val.obj (LObj.fn "class_for_name")) [Dyn.Val.obj (LObj.bytes nm)] []
+      = pure (.obj (.klass nm kws)) := by
+    simp only [Dyn.call, LWorld.ext, String.reduceEq, if_true, hk]
+  have hcall' : ∀ s, w.dec s = nm → Dyn.call w.ext (Dyn.Val.obj (LObj.fn "class_for_name")) [Dyn.Val.str s] []
+      = pure (.obj (.klass nm kws)) := by
+    intro s hs
+    simp only [Dyn.call, LWorld.ext, String.reduceEq, if_true, hs, hk]
+  have hkeys : Dyn.m_keys w.ext (Dyn.Val.obj (LObj.h5 ch)) = pure (ch.map (fun e => (Dyn.Val.str e.1 : LV α))) := by
+    simp only [Dyn.m_keys, Dyn.callMethod, LWorld.ext, if_true, l_bind_ok, Dyn.iter]
+  have hpmK : ∀ K : LV α → LM α (LV α),
+      (Dyn.truthy w.ext premade >>= fun t => (if t = true then pure premade else pure (Dyn.Val.dict [])) >>= K)
+        = K (encD w pre []) := by
+    intro K
+    rcases hpm with ⟨rfl, rfl⟩ | ⟨rfl, hne⟩
+    · rfl
+    · have : (preD pre).isEmpty = false := by
+        cases pre with
+        | nil => exact absurd rfl hne
+        | cons a t => rfl
+      simp [Dyn.truthy, this, encD]
+  rcases hpt with ⟨rfl, k, rfl, htype⟩ | ⟨s, rfl, hs⟩
+  all_goals (
+    first
+    | simp only [Dyn.Val.isNone, if_true, hget, htype, nodeObj, l_bind_ok, hraw, rawOf, hkeys, hcfn, hcall,
+        src_get_klass_args, hpmK]
+    | simp only [Dyn.Val.isNone, Bool.false_eq_true, if_false, l_bind_ok, hkeys, hcfn, hcall' s hs,
+        src_get_klass_args, hpmK]
+    simp only [Dyn.truthy, Bool.false_eq_true, if_false, Dyn.iter, l_bind_ok]
+    rw [forM_load w ch kws pre _ ?hb hpk kws [] hn (fun _ h => h) (by simp)]
+    case hb =>
+      intro acc kw hkw
+      simp only [contains_keys]
+      cases hl : ch.lookup kw with
+      | none => simp
+      | some n =>
+        have hg := hds kw hkw n hl
+        simp only [Option.isSome_some, if_true, l_bind_ok, hget, hl, hraw]
+        have hnp : w.ext.global "np" = pure (.obj .np) := rfl
+        have hnd : Dyn.getAttr w.ext (Dyn.Val.obj (LObj.np : LObj α)) "ndarray" = pure (.obj .npNdarray) := rfl
+        have hby : Dyn.getAttr w.ext (Dyn.Val.obj (LObj.np : LObj α)) "bytes_" = pure (.obj .npBytes) := rfl
+        have hrepl : Dyn.contains w.ext (Dyn.Val.str kw) (Dyn.Val.dict ([] : List (LV α × LV α))) = pure false := rfl
+        simp only [hnp, hnd, hby, l_bind_ok, hrepl, Bool.false_eq_true, if_false]
+        cases n with
+        | group c => simp [isGroup] at hg
+        | vstr t =>
+          have hi : w.ext.isinst (Dyn.Val.obj (LObj.bytes t)) LObj.npNdarray = false := rfl
+          have hd : Dyn.callMethodB w.ext (Dyn.Val.obj (LObj.bytes t : LObj α)) "decode" [] [] = pure (.str (w.enc t)) := rfl
+          simp only [nodeObj, hraw, rawOf, Dyn.isinstObj, hi, Bool.false_eq_true, if_false, l_bind_ok, hd, l_try_ok, load,
+            embLV]
+        | sfix wd rows =>
+          have hdec := src_decode_string_array w wd rows
+          have hfn : w.ext.global "decode_string_array" = pure (.obj (.fn "decode_string_array")) := rfl
+          simp only [nodeObj, hraw, rawOf, Dyn.isinstObj]
+          have hi : w.ext.isinst (Dyn.Val.obj (LObj.sarr rows)) LObj.npNdarray = true := rfl
+          have hdt : Dyn.getAttr w.ext (Dyn.Val.obj (LObj.sarr rows : LObj α)) "dtype" = pure (.obj (.dtype true)) := rfl
+          have hty : Dyn.getAttr w.ext (Dyn.Val.obj (LObj.dtype true : LObj α)) "type" = pure (.obj .npBytes) := rfl
+          have his : Dyn.is_ w.ext (Dyn.Val.obj (LObj.npBytes : LObj α)) (Dyn.Val.obj LObj.npBytes) = pure true := rfl
+          simp only [hi, if_true, hdt, hty, hnp, hby, his, l_bind_ok, hdec]
+          have hm : Dyn.callMethodB w.ext (embLV w.enc (Value.list (rows.map Value.str) : Value α)) "decode" [] []
+              = throw .AttributeError := rfl
+          simp only [load, hm, l_try_err]
+          simp [Exc.isaAny, Exc.isa, Exc.base, encD]
+        | num a =>
+          have hi : ∀ v : Value α, (∀ a', v ≠ .array a') → w.ext.isinst (embLV w.enc v) LObj.npNdarray = false := by
+            intro v hv
+            cases v <;> first | rfl | (exact absurd rfl (hv _))
+          have hdecode : ∀ v : Value α, Dyn.callMethodB w.ext (embLV w.enc v) "decode" [] [] = throw .AttributeError := by
+            intro v
+            cases v <;> rfl
+          simp only [nodeObj, hraw, rawOf, Dyn.isinstObj]
+          have hload : (∃ a', load (Node.num a) = Value.array a') ∨ (∃ b, load (Node.num a) = Value.bool b) ∨
+              (∃ i, load (Node.num a) = Value.int i) ∨ (∃ x, load (Node.num a) = Value.float x) := by
+            simp only [load]
+            cases a.shape with
+            | cons _ _ => exact Or.inl ⟨_, rfl⟩
+            | nil =>
+              simp only []
+              cases hsc : scalarOf a.data with
+              | none => exact Or.inl ⟨_, rfl⟩
+              | some v =>
+                simp only [Option.getD_some]
+                unfold scalarOf at hsc
+                split at hsc <;> cases hsc
+                · exact Or.inr (Or.inl ⟨_, rfl⟩)
+                · exact Or.inr (Or.inr (Or.inl ⟨_, rfl⟩))
+                · exact Or.inr (Or.inr (Or.inr ⟨_, rfl⟩))
+          rcases hload with ⟨a', hv⟩ | ⟨b, hv⟩ | ⟨i, hv⟩ | ⟨x, hv⟩
+          · have hi' : w.ext.isinst (Dyn.Val.obj (LObj.nd a')) LObj.npNdarray = true := rfl
+            have hdt : Dyn.getAttr w.ext (Dyn.Val.obj (LObj.nd a' : LObj α)) "dtype" = pure (.obj (.dtype false)) := rfl
+            have hty : Dyn.getAttr w.ext (Dyn.Val.obj (LObj.dtype false : LObj α)) "type" = pure (.obj .npOther) := rfl
+            have his : Dyn.is_ w.ext (Dyn.Val.obj (LObj.npOther : LObj α)) (Dyn.Val.obj LObj.npBytes) = pure false := rfl
+            have hd := hdecode (.array a')
+            simp only [embLV] at hd
+            simp only [hv, embLV, hi', if_true, hdt, hty, hnp, hby, his, l_bind_ok, Bool.false_eq_true, if_false,
+              hd, l_try_err]
+            simp [Exc.isaAny, Exc.isa, Exc.base, encD, embLV]
+          · simp only [hv, hi (Value.bool b) (by intro a' h'; cases h'), Bool.false_eq_true, if_false, l_bind_ok,
+              hdecode, l_try_err]
+            simp [Exc.isaAny, Exc.isa, Exc.base, encD]
+          · simp only [hv, hi (Value.int i) (by intro a' h'; cases h'), Bool.false_eq_true, if_false, l_bind_ok,
+              hdecode, l_try_err]
+            simp [Exc.isaAny, Exc.isa, Exc.base, encD]
+          · simp only [hv, hi (Value.float x) (by intro a' h'; cases h'), Bool.false_eq_true, if_false, l_bind_ok,
+              hdecode, l_try_err]
+            simp [Exc.isaAny, Exc.isa, Exc.base, encD]
+    · simp only [List.nil_append, l_bind_ok, encD]
+      simp only [starStar_pre, l_bind_ok, Dyn.call]
+      rfl)
 
 /-- **`load_generic_profile_from_hdf5(loc, module, identifier)`** (no `profile_type`, no pre-made / replacement
-    dictionary) is the model's reload: the class is the one `class_for_name` finds for the stored type string, and it is
-    called with exactly `Output.loadKwargs` — for every constructor keyword, in the constructor's order, that is stored in
-    the group: the stored entry read back and decoded as `Output.load` says (`decode_string_array` for fixed-width string
-    arrays, `.decode()` for strings); keywords that are not stored are left to their defaults. -/
+    dictionary): the class of the stored type string called with exactly `Output.loadKwargs` -/
 theorem src_load_generic_profile (w : LWorld α) (ch : List (String × Node α)) (typeKey : String) (nm : List Nat)
     (kws : List String) (module : LV α) (htype : ch.lookup typeKey = some (.vstr nm)) (hk : w.klassOf nm = some kws)
     (hn : kws.Nodup) (hds : ∀ kw ∈ kws, ∀ n, ch.lookup kw = some n → isGroup n = false) :
     SrcC16.load_generic_profile w.ext (.obj (.h5 ch)) module (.str typeKey) .none .none .none
       = w.call (.klass nm kws) [] (embKwL w.enc (loadKwargs ch kws)) := by
-  unfold SrcC16.load_generic_profile
-  have hget : ∀ k : String, Dyn.getItem w.ext (Dyn.Val.obj (LObj.h5 ch)) (Dyn.Val.str k)
-      = match ch.lookup k with | some n => .ok (.obj (.node n)) | none => .error .KeyError := by
-    intro k; simp only [Dyn.getItem, LWorld.ext]; rfl
-  have hraw : ∀ n : Node α, Dyn.getItem w.ext (Dyn.Val.obj (LObj.node n)) (Dyn.Val.tuple []) = .ok (rawOf w.enc n) := by
-    intro n; rfl
-  have hcfn : w.ext.global "class_for_name" = .ok (.obj (.fn "class_for_name")) := rfl
-  have hcall : Dyn.call w.ext (Dyn.Val.obj (LObj.fn "class_for_name")) [Dyn.Val.obj (LObj.bytes nm)] []
-      = .ok (.obj (.klass nm kws)) := by
-    simp only [Dyn.call, LWorld.ext, String.reduceEq, if_true, hk]
-  have hkeys : Dyn.m_keys w.ext (Dyn.Val.obj (LObj.h5 ch)) = .ok (ch.map (fun e => (Dyn.Val.str e.1 : LV α))) := by
-    simp only [Dyn.m_keys, Dyn.callMethod, LWorld.ext, if_true, l_bind_ok, Dyn.iter, l_pure_ok]
-  simp only [Dyn.Val.isNone, if_true, hget, htype, l_bind_ok, hraw, rawOf, l_pure_ok, hkeys, hcfn, hcall,
-    src_get_klass_args, Dyn.truthy, Bool.false_eq_true, if_false, Dyn.iter]
-  have h0 : (Dyn.Val.dict [] : LV α) = encD w [] := rfl
-  rw [h0, forM_load w ch kws _ ?hb kws [] hn (fun _ h => h) (by simp)]
-  case hb =>
-    intro acc kw hkw
-    simp only [contains_keys]
-    cases hl : ch.lookup kw with
-    | none => simp
-    | some n =>
-      have hg := hds kw hkw n hl
-      simp only [Option.isSome_some, if_true, l_bind_ok, hget, hl, hraw]
-      have hnp : w.ext.global "np" = .ok (.obj .np) := rfl
-      have hnd : Dyn.getAttr w.ext (Dyn.Val.obj (LObj.np : LObj α)) "ndarray" = .ok (.obj .npNdarray) := rfl
-      have hby : Dyn.getAttr w.ext (Dyn.Val.obj (LObj.np : LObj α)) "bytes_" = .ok (.obj .npBytes) := rfl
-      have hrepl : Dyn.contains w.ext (Dyn.Val.str kw) (encD w []) = .ok false := rfl
-      simp only [hnp, hnd, hby, l_bind_ok, hrepl, Bool.false_eq_true, if_false]
-      cases n with
-      | group c => simp [isGroup] at hg
-      | vstr t =>
-        have hi : w.ext.isinst (Dyn.Val.obj (LObj.bytes t)) LObj.npNdarray = false := rfl
-        have hd : Dyn.callMethodB w.ext (Dyn.Val.obj (LObj.bytes t : LObj α)) "decode" [] [] = .ok (.str (w.enc t)) := rfl
-        simp only [rawOf, Dyn.isinstObj, hi, Bool.false_eq_true, if_false, l_pure_ok, l_bind_ok, hd, l_try_ok, load,
-          embLV]
-      | sfix wd rows =>
-        have hdec := src_decode_string_array w wd rows
-        have hfn : w.ext.global "decode_string_array" = .ok (.obj (.fn "decode_string_array")) := rfl
-        simp only [rawOf, Dyn.isinstObj]
-        have hi : w.ext.isinst (Dyn.Val.obj (LObj.sarr rows)) LObj.npNdarray = true := rfl
-        have hdt : Dyn.getAttr w.ext (Dyn.Val.obj (LObj.sarr rows : LObj α)) "dtype" = .ok (.obj (.dtype true)) := rfl
-        have hty : Dyn.getAttr w.ext (Dyn.Val.obj (LObj.dtype true : LObj α)) "type" = .ok (.obj .npBytes) := rfl
-        have his : Dyn.is_ w.ext (Dyn.Val.obj (LObj.npBytes : LObj α)) (Dyn.Val.obj LObj.npBytes) = .ok true := rfl
-        simp only [hi, if_true, hdt, hty, hnp, hby, his, l_bind_ok, l_pure_ok, hdec]
-        have hm : Dyn.callMethodB w.ext (embLV w.enc (Value.list (rows.map Value.str) : Value α)) "decode" [] []
-            = .error .AttributeError := rfl
-        simp only [load, hm, l_try_err]
-        simp [Exc.isaAny, Exc.isa, Exc.base, encD]
-      | num a =>
-        have hi : ∀ v : Value α, (∀ a', v ≠ .array a') → w.ext.isinst (embLV w.enc v) LObj.npNdarray = false := by
-          intro v hv
-          cases v <;> first | rfl | (exact absurd rfl (hv _))
-        have hdecode : ∀ v : Value α, Dyn.callMethodB w.ext (embLV w.enc v) "decode" [] [] = .error .AttributeError := by
-          intro v
-          cases v <;> rfl
-        simp only [rawOf, Dyn.isinstObj]
-        have hload : (∃ a', load (Node.num a) = Value.array a') ∨ (∃ b, load (Node.num a) = Value.bool b) ∨
-            (∃ i, load (Node.num a) = Value.int i) ∨ (∃ x, load (Node.num a) = Value.float x) := by
-          simp only [load]
-          cases a.shape with
-          | cons _ _ => exact Or.inl ⟨_, rfl⟩
-          | nil =>
-            simp only []
-            cases hsc : scalarOf a.data with
-            | none => exact Or.inl ⟨_, rfl⟩
-            | some v =>
-              simp only [Option.getD_some]
-              unfold scalarOf at hsc
-              split at hsc <;> cases hsc
-              · exact Or.inr (Or.inl ⟨_, rfl⟩)
-              · exact Or.inr (Or.inr (Or.inl ⟨_, rfl⟩))
-              · exact Or.inr (Or.inr (Or.inr ⟨_, rfl⟩))
-        rcases hload with ⟨a', hv⟩ | ⟨b, hv⟩ | ⟨i, hv⟩ | ⟨x, hv⟩
-        · have hi' : w.ext.isinst (Dyn.Val.obj (LObj.nd a')) LObj.npNdarray = true := rfl
-          have hdt : Dyn.getAttr w.ext (Dyn.Val.obj (LObj.nd a' : LObj α)) "dtype" = .ok (.obj (.dtype false)) := rfl
-          have hty : Dyn.getAttr w.ext (Dyn.Val.obj (LObj.dtype false : LObj α)) "type" = .ok (.obj .npOther) := rfl
-          have his : Dyn.is_ w.ext (Dyn.Val.obj (LObj.npOther : LObj α)) (Dyn.Val.obj LObj.npBytes) = .ok false := rfl
-          have hd := hdecode (.array a')
-          simp only [embLV] at hd
-          simp only [hv, embLV, hi', if_true, hdt, hty, hnp, hby, his, l_bind_ok, l_pure_ok, Bool.false_eq_true, if_false,
-            hd, l_try_err]
-          simp [Exc.isaAny, Exc.isa, Exc.base, encD, embLV]
-        · simp only [hv, hi (Value.bool b) (by intro a' h'; cases h'), Bool.false_eq_true, if_false, l_pure_ok, l_bind_ok,
-            hdecode, l_try_err]
-          simp [Exc.isaAny, Exc.isa, Exc.base, encD]
-        · simp only [hv, hi (Value.int i) (by intro a' h'; cases h'), Bool.false_eq_true, if_false, l_pure_ok, l_bind_ok,
-            hdecode, l_try_err]
-          simp [Exc.isaAny, Exc.isa, Exc.base, encD]
-        · simp only [hv, hi (Value.float x) (by intro a' h'; cases h'), Bool.false_eq_true, if_false, l_pure_ok, l_bind_ok,
-            hdecode, l_try_err]
-          simp [Exc.isaAny, Exc.isa, Exc.base, encD]
-  · simp only [List.nil_append, l_bind_ok, encD]
-    have hss : ∀ c : List (String × Value α),
-        (Dyn.starStar (Dyn.Val.dict (c.map (fun kv => ((Dyn.Val.str kv.1 : LV α), embLV w.enc kv.2)))) : LM _)
-          = .ok (embKwL w.enc c) := by
-      intro c
-      simp only [Dyn.starStar, embKwL]
-      induction c with
-      | nil => rfl
-      | cons kv t ih =>
-        simp only [List.map_cons, Dyn.mapM, l_pure_ok, l_bind_ok] at ih ⊢
-        rw [ih]; rfl
-    simp only [hss, l_bind_ok, Dyn.call, l_bind_ok_right]
-    rfl
+  have h := src_load_generic_profile_gen w ch (.str typeKey) .none .none nm kws module []
+    (Or.inl ⟨rfl, typeKey, rfl, htype⟩) (Or.inl ⟨rfl, rfl⟩) hk hn hds (by simp)
+  simpa using h
 
+section
+variable (w : LWorld α) (top ch : List (String × Node α)) (nm : List Nat) (kws : List String)
+
+/-- **`load_temperature_from_hdf5(loc)`** reloads the group `Temperature` by its stored `temperature_type` -/
+theorem src_load_temperature (htop : top.lookup "Temperature" = some (.group ch))
+    (htype : ch.lookup "temperature_type" = some (.vstr nm)) (hr : Reloadable w ch nm kws) :
+    SrcC16.load_temperature w.ext (.obj (.h5 top)) .none
+      = w.call (.klass nm kws) [] (embKwL w.enc (loadKwargs ch kws)) := by
+  unfold SrcC16.load_temperature
+  simp only [getItem_group w top ch _ htop, l_bind_ok, l_bind_ok_right,
+    src_load_generic_profile w ch _ nm kws _ htype hr.klass hr.nodup hr.flat]
+
+/-- **`load_pressure_from_hdf5(loc)`** reloads the group `Pressure` by its stored `pressure_type` -/
+theorem src_load_pressure (htop : top.lookup "Pressure" = some (.group ch))
+    (htype : ch.lookup "pressure_type" = some (.vstr nm)) (hr : Reloadable w ch nm kws) :
+    SrcC16.load_pressure w.ext (.obj (.h5 top)) .none
+      = w.call (.klass nm kws) [] (embKwL w.enc (loadKwargs ch kws)) := by
+  unfold SrcC16.load_pressure
+  simp only [getItem_group w top ch _ htop, l_bind_ok, l_bind_ok_right,
+    src_load_generic_profile w ch _ nm kws _ htype hr.klass hr.nodup hr.flat]
+
+/-- **`load_star_from_hdf5(loc)`** reloads the group `Star` by its stored `star_type` -/
+theorem src_load_star (htop : top.lookup "Star" = some (.group ch))
+    (htype : ch.lookup "star_type" = some (.vstr nm)) (hr : Reloadable w ch nm kws) :
+    SrcC16.load_star w.ext (.obj (.h5 top)) .none
+      = w.call (.klass nm kws) [] (embKwL w.enc (loadKwargs ch kws)) := by
+  unfold SrcC16.load_star
+  simp only [getItem_group w top ch _ htop, l_bind_ok, l_bind_ok_right,
+    src_load_generic_profile w ch _ nm kws _ htype hr.klass hr.nodup hr.flat]
+
+/-- **`load_gas_from_hdf5(loc, molecule)`** reloads the group named like the molecule by its stored `gas_type` -/
+theorem src_load_gas (mol : String) (htop : top.lookup mol = some (.group ch))
+    (htype : ch.lookup "gas_type" = some (.vstr nm)) (hr : Reloadable w ch nm kws) :
+    SrcC16.load_gas w.ext (.obj (.h5 top)) (.str mol) .none
+      = w.call (.klass nm kws) [] (embKwL w.enc (loadKwargs ch kws)) := by
+  unfold SrcC16.load_gas
+  simp only [getItem_group w top ch _ htop, l_bind_ok, l_bind_ok_right,
+    src_load_generic_profile w ch _ nm kws _ htype hr.klass hr.nodup hr.flat]
+
+/-- **`load_planet_from_hdf5(loc)`**: the class is always the one named `Planet` (the stored `planet_type` is not read) -/
+theorem src_load_planet (htop : top.lookup "Planet" = some (.group ch)) (hnm : w.dec "Planet" = nm)
+    (hr : Reloadable w ch nm kws) :
+    SrcC16.load_planet w.ext (.obj (.h5 top)) .none
+      = w.call (.klass nm kws) [] (embKwL w.enc (loadKwargs ch kws)) := by
+  unfold SrcC16.load_planet
+  have h := src_load_generic_profile_gen w ch (.str "planet_type") (.str "Planet") .none nm kws
+    (.str "taurex.data.planet") [] (Or.inr ⟨_, rfl, hnm⟩) (Or.inl ⟨rfl, rfl⟩) hr.klass hr.nodup hr.flat (by simp)
+  simp only [getItem_group w top ch _ htop, l_bind_ok, l_bind_ok_right, h, List.nil_append]
+
+/-- **`load_contrib_from_hdf5(loc, contribution)`**: the class is the one named like the group -/
+theorem src_load_contrib (c : String) (htop : top.lookup c = some (.group ch)) (hnm : w.dec c = nm)
+    (hr : Reloadable w ch nm kws) :
+    SrcC16.load_contrib w.ext (.obj (.h5 top)) (.str c) .none
+      = w.call (.klass nm kws) [] (embKwL w.enc (loadKwargs ch kws)) := by
+  unfold SrcC16.load_contrib
+  have h := src_load_generic_profile_gen w ch (.str "contrib_type") (.str c) .none nm kws
+    (.str "taurex.contributions") [] (Or.inr ⟨_, rfl, hnm⟩) (Or.inl ⟨rfl, rfl⟩) hr.klass hr.nodup hr.flat (by simp)
+  simp only [getItem_group w top ch _ htop, l_bind_ok, l_bind_ok_right, h, List.nil_append]
+
+end
+
+/-! ### chemistry -/
+
+/-- **`load_gas_from_hdf5(loc, molecule)`** on a chemistry group whose entry `molecule` is absent or a good gas group -/
+theorem src_load_gas_total (w : LWorld α) (chem : List (String × Node α)) (mol : String) (hg : GasGood w chem mol) :
+    SrcC16.load_gas w.ext (.obj (.h5 chem)) (.str mol) .none = gasCall w chem mol := by
+  rcases hg with hl | ⟨gch, gnm, gkws, hl, ht, hr⟩
+  · unfold SrcC16.load_gas gasCall
+    simp only [getItem_h5, hl, l_bind_err]
+  · rw [src_load_gas w chem gch gnm gkws mol hl ht hr]
+    simp only [gasCall, hl, ht, hr.klass]
+
+/-- `decode_string_array(f)` for anything that iterates as the rows of a fixed-width string array -/
+theorem decode_rows (w : LWorld α) (o : LObj α) (rows : List (List Nat))
+    (hi : w.ext.iter o = pure (rows.map (fun r => .obj (.srow r)))) :
+    SrcC16.decode_string_array w.ext (.obj o) = pure (.list (rows.map (fun r => .str (w.enc r)))) := by
+  unfold SrcC16.decode_string_array
+  simp only [Dyn.iter, hi, l_bind_ok]
+  have : ∀ rs : List (List Nat), Dyn.mapM (m := LM α) (fun s => do
+        let t__3 ← Dyn.getItem w.ext s (Dyn.Val.int 0)
+        let t__4 ← Dyn.callMethodB w.ext t__3 "decode" [(Dyn.Val.str "utf-8")] []
+        pure t__4) (rs.map (fun r => (Dyn.Val.obj (LObj.srow r) : LV α)))
+      = pure (rs.map (fun r => Dyn.Val.str (w.enc r))) := by
+    intro rs
+    induction rs with
+    | nil => rfl
+    | cons r t ih =>
+      simp only [List.map_cons, Dyn.mapM, ih, l_bind_ok]
+      rfl
+  rw [this]
+  rfl
+
+/-- **`load_chemistry_from_hdf5(loc)`** is `chemistrySpec`: the group `Chemistry` reloaded by its stored
+    `chemistry_type`; if the result is a `TaurexChemistry`, the gases named in `active_gases` and then in `inactive_gases`
+    that are not among its `_fill_gases` are reloaded (`load_gas_from_hdf5`, i.e. `gasCall`) and added with `addGas`, in
+    stored order -/
+theorem src_load_chemistry (w : LWorld α) (top chem : List (String × Node α)) (nm : List Nat) (kws : List String)
+    (wa wi : Nat) (act inact : List (List Nat))
+    (htop : top.lookup "Chemistry" = some (.group chem))
+    (htype : chem.lookup "chemistry_type" = some (.vstr nm)) (hr : Reloadable w chem nm kws)
+    (hact : chem.lookup "active_gases" = some (.sfix wa act))
+    (hinact : chem.lookup "inactive_gases" = some (.sfix wi inact))
+    (hgas : ∀ r ∈ act ++ inact, GasGood w chem (w.enc r)) :
+    SrcC16.load_chemistry w.ext (.obj (.h5 top)) .none = chemistrySpec w chem nm kws act inact := by
+  unfold SrcC16.load_chemistry chemistrySpec
+  have hglob : w.ext.global "TaurexChemistry" = pure (.obj (.fn "TaurexChemistry")) := rfl
+  have hraw : Dyn.getItem w.ext (Dyn.Val.obj (LObj.node (Node.sfix wa act : Node α))) (Dyn.Val.tuple [])
+      = pure (.obj (.sarr act)) := rfl
+  have hd1 := decode_rows w (.sarr act) act rfl
+  have hd2 := decode_rows w (.node (.sfix wi inact)) inact rfl
+  simp only [getItem_group w top chem _ htop, l_bind_ok,
+    src_load_generic_profile w chem _ nm kws _ htype hr.klass hr.nodup hr.flat]
+  congr 1
+  funext chemistry
+  simp only [hglob, l_bind_ok, Dyn.isinstObj]
+  have hisa : w.ext.isinst chemistry (LObj.fn "TaurexChemistry") = w.isA chemistry "TaurexChemistry" := by
+    cases chemistry <;> rfl
+  simp only [hisa]
+  by_cases hA : w.isA chemistry "TaurexChemistry" = true
+  · simp only [hA, if_true, getItem_h5, hact, hinact, nodeObj, l_bind_ok, hraw, hd1, hd2, Dyn.iter, addGases]
+    have hbody : ∀ (rows : List (List Nat)), (∀ r ∈ rows, GasGood w chem (w.enc r)) →
+        ∀ (body : Unit → LV α → LM α Unit),
+        (∀ mol : String, GasGood w chem mol → body () (.str mol) = addGasStep w chem chemistry mol) →
+        Dyn.forM (rows.map (fun r => (Dyn.Val.str (w.enc r) : LV α))) () body
+          = Dyn.forM (rows.map w.enc) () (fun _ mol => addGasStep w chem chemistry mol) := by
+      intro rows hrows body hb
+      rw [forM_map, forM_map]
+      apply forM_congr
+      intro r hr st
+      cases st
+      exact hb _ (hrows r hr)
+    rw [hbody act (fun r h => hgas r (List.mem_append_left _ h)) _ ?hb1,
+        hbody inact (fun r h => hgas r (List.mem_append_right _ h)) _ ?hb2]
+    · simp only [eff_bind_assoc, l_bind_ok]
+    case hb1 =>
+      intro mol hg
+      simp only [addGasStep, src_load_gas_total w chem mol hg]
+    case hb2 =>
+      intro mol hg
+      simp only [addGasStep, src_load_gas_total w chem mol hg]
+  · simp only [hA, Bool.false_eq_true, if_false, l_bind_ok]
+
+/-! ### the whole model, the file-level functions -/
+
+/-- **`load_model_from_hdf5(loc)`** is `modelSpec`: the five components reloaded by their own loaders (all regenerated),
+    the model class called with them and its own stored keywords, the contribution groups reloaded and added in file order
+    (the nested generator `contrib_iterator` and the loop that consumes it) -/
+theorem src_load_model (w : LWorld α) (mp : List (String × Node α)) (f : ModelFile w mp) :
+    SrcC16.load_model w.ext (.obj (.h5 mp)) .none = modelSpec w mp f := by
+  unfold SrcC16.load_model modelSpec
+  have hgen : ∀ planet star chemistry temperature pressure : LV α,
+      SrcC16.load_generic_profile w.ext (.obj (.h5 mp)) (.str "taurex.model") (.str "model_type") .none
+        (.dict [(.str "planet", planet), (.str "star", star), (.str "chemistry", chemistry),
+          (.str "temperature_profile", temperature), (.str "pressure_profile", pressure)]) .none
+      = w.call (.klass f.mnm f.mkws) []
+          ([("planet", planet), ("star", star), ("chemistry", chemistry), ("temperature_profile", temperature),
+            ("pressure_profile", pressure)] ++ embKwL w.enc (loadKwargs mp f.mkws)) := by
+    intro planet star chemistry temperature pressure
+    exact src_load_generic_profile_gen w mp (.str "model_type") .none _ f.mnm f.mkws _
+      [("planet", planet), ("star", star), ("chemistry", chemistry), ("temperature_profile", temperature),
+        ("pressure_profile", pressure)]
+      (Or.inl ⟨rfl, _, rfl, f.hmtype⟩) (Or.inr ⟨rfl, by simp⟩) f.hmr.klass f.hmr.nodup f.hmr.flat f.hmpk
+  have hkeys : Dyn.m_keys w.ext (Dyn.Val.obj (LObj.h5 f.contribs))
+      = pure (f.contribs.map (fun e => (Dyn.Val.str e.1 : LV α))) := by
+    simp only [Dyn.m_keys, Dyn.callMethod, LWorld.ext, if_true, l_bind_ok, Dyn.iter]
+  have hh5 : w.ext.global "h5py" = pure (.obj (.fn "h5py")) := rfl
+  have hgrp : Dyn.getAttr w.ext (Dyn.Val.obj (LObj.fn "h5py" : LObj α)) "Group" = pure (.obj .h5Group) := rfl
+  simp only [src_load_chemistry w mp f.chem f.cnm f.ckws f.wa f.wi f.act f.inact f.hchem f.hctype f.hcr f.hact f.hinact
+      f.hgas,
+    src_load_pressure w mp f.press f.pnm f.pkws f.hpress f.hptype f.hpr,
+    src_load_temperature w mp f.temp f.tnm f.tkws f.htemp f.httype f.htr,
+    src_load_planet w mp f.planet f.plnm f.plkws f.hplanet f.hplnm f.hplr,
+    src_load_star w mp f.star f.snm f.skws f.hstar f.hstype f.hsr,
+    Dyn.setItem, Dyn.Val.hashable, if_true, l_bind_ok, Dyn.dictSet, Dyn.Val.beq, String.reduceBEq, Bool.false_eq_true,
+    if_false, hgen, getItem_group w mp f.contribs _ f.hcontribs, hkeys, hh5, hgrp]
+  congr 1; funext chemistry
+  congr 1; funext pressure
+  congr 1; funext temperature
+  congr 1; funext planet
+  congr 1; funext star
+  congr 1; funext model
+  rw [forM_map]
+  congr 1
+  apply forM_congr
+  intro e he st
+  cases st
+  obtain ⟨key, n⟩ := e
+  have hl : f.contribs.lookup key = some n := lookup_of_mem_nodup f.hcnodup he
+  simp only [getItem_h5, hl, l_bind_ok, contribStep]
+  cases n with
+  | group cch =>
+    obtain ⟨kws, hr⟩ := f.hcgood key cch he
+    have hi : Dyn.isinstObj w.ext (Dyn.Val.obj (nodeObj (Node.group cch))) (Dyn.Val.obj (LObj.h5Group : LObj α)) = true := rfl
+    simp only [hi, if_true, l_bind_ok, src_load_contrib w f.contribs cch (w.dec key) kws key hl rfl hr, contribCall, hl,
+      hr.klass, eff_bind_assoc]
+  | num a =>
+    have hi : Dyn.isinstObj w.ext (Dyn.Val.obj (nodeObj (Node.num a))) (Dyn.Val.obj (LObj.h5Group : LObj α)) = false := rfl
+    simp only [hi, Bool.false_eq_true, if_false]
+  | vstr t =>
+    have hi : Dyn.isinstObj w.ext (Dyn.Val.obj (nodeObj (Node.vstr t : Node α))) (Dyn.Val.obj (LObj.h5Group : LObj α)) = false := rfl
+    simp only [hi, Bool.false_eq_true, if_false]
+  | sfix wd rows =>
+    have hi : Dyn.isinstObj w.ext (Dyn.Val.obj (nodeObj (Node.sfix wd rows : Node α))) (Dyn.Val.obj (LObj.h5Group : LObj α)) = false := rfl
+    simp only [hi, Bool.false_eq_true, if_false]
+
+/-- **`taurex_hdf5_to_model(filename)`**: open the file read-only, `load_model_from_hdf5` on its group `ModelParameters`,
+    close it — `OSError` when the file cannot be opened -/
+theorem src_hdf5_to_model (w : LWorld α) (path : String) (root mp : List (String × Node α))
+    (hfile : w.fileOf path = some root) (hmp : root.lookup "ModelParameters" = some (.group mp)) (f : ModelFile w mp) :
+    SrcC16.hdf5_to_model w.ext (.str path) .none = modelSpec w mp f := by
+  unfold SrcC16.hdf5_to_model
+  have hh5 : w.ext.global "h5py" = pure (.obj (.fn "h5py")) := rfl
+  have hopen : Dyn.callMethod w.ext (Dyn.Val.obj (LObj.fn "h5py" : LObj α)) "File" [.str path, .str "r"] []
+      = pure (.obj (.file root)) := by
+    simp only [Dyn.callMethod, LWorld.ext, hfile]
+    rfl
+  have henter : Dyn.callMethod w.ext (Dyn.Val.obj (LObj.file root)) "__enter__" [] [] = pure (.obj (.h5 root)) := rfl
+  have hexit : ∀ a : List (LV α), Dyn.callMethod w.ext (Dyn.Val.obj (LObj.file root)) "__exit__" a [] = pure .none :=
+    fun _ => rfl
+  simp only [hh5, l_bind_ok, hopen, henter, getItem_group w root mp _ hmp, src_load_model w mp f, Dyn.withExit, hexit,
+    Dyn.truthy, l_bind_ok_right, Bool.false_eq_true, if_false]
+  rw [with_noexit]
+  simp only [eff_bind_assoc, l_bind_ok, l_bind_ok_right]
+
+/-- … and `OSError` when the file cannot be opened -/
+theorem src_hdf5_to_model_nofile (w : LWorld α) (path : String) (hfile : w.fileOf path = none) :
+    SrcC16.hdf5_to_model w.ext (.str path) .none = throw .OSError := by
+  unfold SrcC16.hdf5_to_model
+  have hh5 : w.ext.global "h5py" = pure (.obj (.fn "h5py")) := rfl
+  have hopen : Dyn.callMethod w.ext (Dyn.Val.obj (LObj.fn "h5py" : LObj α)) "File" [.str path, .str "r"] []
+      = throw .OSError := by
+    simp only [Dyn.callMethod, LWorld.ext, hfile]
+    rfl
+  simp only [hh5, l_bind_ok, hopen, l_bind_err]
+
+section observation
+variable [Mul α] [Div α] [OfNat α 10000]
+
+/-- **`taurex_hdf5_to_observation(filename)`**: the four `instrument_*` datasets of `Output/Spectra` are read, and the
+    observation is `ArraySpectrum` of the columns wavelength grid (`Output.wlOfWn` of the stored wavenumber grid), stored
+    spectrum, stored noise, wavelength widths (`Output.wnwidthToWlwidth` of the stored grid and widths) — given that numpy's
+    `10000/array` and the module function `wnwidth_to_wlwidth` are those model functions (`hdiv`, `hww`; the latter is tied
+    for C17) -/
+theorem src_hdf5_to_observation (w : LWorld α) (path : String) (root out spec : List (String × Node α))
+    (n1 n2 n3 n4 : Nat) (wn sp noise wd : List α)
+    (hfile : w.fileOf path = some root) (hout : root.lookup "Output" = some (.group out))
+    (hspec : out.lookup "Spectra" = some (.group spec))
+    (h1 : spec.lookup "instrument_wngrid" = some (.num ⟨[n1], .floats wn⟩))
+    (h2 : spec.lookup "instrument_spectrum" = some (.num ⟨[n2], .floats sp⟩))
+    (h3 : spec.lookup "instrument_noise" = some (.num ⟨[n3], .floats noise⟩))
+    (h4 : spec.lookup "instrument_wnwidth" = some (.num ⟨[n4], .floats wd⟩))
+    (hdiv : w.div10000 = wlOfWn) (hww : w.wlwidth = wnwidthToWlwidth) :
+    SrcC16.hdf5_to_observation w.ext (.str path)
+      = w.call (.fn "ArraySpectrum") [.obj (.matT [wlOfWn wn, sp, noise, wnwidthToWlwidth wn wd])] [] := by
+  unfold SrcC16.hdf5_to_observation
+  have hh5 : w.ext.global "h5py" = pure (.obj (.fn "h5py")) := rfl
+  have hopen : Dyn.callMethod w.ext (Dyn.Val.obj (LObj.fn "h5py" : LObj α)) "File" [.str path, .str "r"] []
+      = pure (.obj (.file root)) := by
+    simp only [Dyn.callMethod, LWorld.ext, hfile]
+    rfl
+  have henter : Dyn.callMethod w.ext (Dyn.Val.obj (LObj.file root)) "__enter__" [] [] = pure (.obj (.h5 root)) := rfl
+  have hexit : ∀ a : List (LV α), Dyn.callMethod w.ext (Dyn.Val.obj (LObj.file root)) "__exit__" a [] = pure .none :=
+    fun _ => rfl
+  have hell : ∀ (n : Nat) (l : List α), Dyn.getItemEllipsis w.ext (Dyn.Val.obj (LObj.node (Node.num ⟨[n], .floats l⟩)))
+      = pure (.obj (.vec l)) := fun _ _ => rfl
+  have hdv : ∀ l : List α, Dyn.truediv w.ext (Dyn.Val.int 10000) (Dyn.Val.obj (LObj.vec l)) = pure (.obj (.vec (w.div10000 l))) :=
+    fun _ => rfl
+  have hgw : w.ext.global "wnwidth_to_wlwidth" = pure (.obj (.fn "wnwidth_to_wlwidth")) := rfl
+  have hcw : ∀ a b : List α, Dyn.call w.ext (Dyn.Val.obj (LObj.fn "wnwidth_to_wlwidth")) [.obj (.vec a), .obj (.vec b)] []
+      = pure (.obj (.vec (w.wlwidth a b))) := fun _ _ => rfl
+  have hga : w.ext.global "ArraySpectrum" = pure (.obj (.fn "ArraySpectrum")) := rfl
+  have hnp : w.ext.global "np" = pure (.obj .np) := rfl
+  have hvs : ∀ a b c d : List α, Dyn.callMethod w.ext (Dyn.Val.obj (LObj.np : LObj α)) "vstack"
+      [.list [.obj (.vec a), .obj (.vec b), .obj (.vec c), .obj (.vec d)]] [] = pure (.obj (.mat [a, b, c, d])) :=
+    fun _ _ _ _ => rfl
+  have hT : ∀ rows : List (List α), Dyn.getAttr w.ext (Dyn.Val.obj (LObj.mat rows)) "T" = pure (.obj (.matT rows)) :=
+    fun _ => rfl
+  have hcall : ∀ x : LV α, Dyn.call w.ext (Dyn.Val.obj (LObj.fn "ArraySpectrum")) [x] []
+      = w.call (.fn "ArraySpectrum") [x] [] := fun _ => rfl
+  simp only [hh5, l_bind_ok, hopen, henter, getItem_group w root out _ hout, getItem_group w out spec _ hspec, l_try_ok,
+    getItem_h5, h1, h2, h3, h4, nodeObj, hell, hdv, hgw, hcw, hga, hnp, hvs, hT, hcall, Dyn.withExit, hexit, Dyn.truthy,
+    l_bind_ok_right, Bool.false_eq_true, if_false, hdiv, hww]
+  rw [with_noexit]
+  simp only [eff_bind_assoc, l_bind_ok, l_bind_ok_right]
+
+/-- … and `KeyError` (the file is closed again) when the file has no `Output` group -/
+theorem src_hdf5_to_observation_nokey (w : LWorld α) (path : String) (root : List (String × Node α))
+    (hfile : w.fileOf path = some root) (hout : root.lookup "Output" = none) :
+    SrcC16.hdf5_to_observation w.ext (.str path) = throw .KeyError := by
+  unfold SrcC16.hdf5_to_observation
+  have hh5 : w.ext.global "h5py" = pure (.obj (.fn "h5py")) := rfl
+  have hopen : Dyn.callMethod w.ext (Dyn.Val.obj (LObj.fn "h5py" : LObj α)) "File" [.str path, .str "r"] []
+      = pure (.obj (.file root)) := by
+    simp only [Dyn.callMethod, LWorld.ext, hfile]
+    rfl
+  have henter : Dyn.callMethod w.ext (Dyn.Val.obj (LObj.file root)) "__enter__" [] [] = pure (.obj (.h5 root)) := rfl
+  have hexit : ∀ a : List (LV α), Dyn.callMethod w.ext (Dyn.Val.obj (LObj.file root)) "__exit__" a [] = pure .none :=
+    fun _ => rfl
+  simp only [hh5, l_bind_ok, hopen, henter, getItem_h5, hout, l_bind_err, l_try_err, Exc.isaAny, Exc.isa, List.any_cons,
+    BEq.rfl, Bool.true_or, if_true, Dyn.withExit, hexit, Dyn.truthy, Bool.false_eq_true, if_false]
+
+end observation
 
 end loader
 
